@@ -75,7 +75,8 @@ mut('C07-unfold-error-seed', 'C07', P, "\t\t\tseed, err = f.Apply(seed)\n\t\t\ti
 Q = 'pipe/queue.go'; U = 'pipe/unbound.go'
 mut('C08-enq-keeps-next', 'C08', Q, "\tval.value = x\n\tval.next = nil\n", "\tval.value = x\n", 'recycled node keeps its old next pointer')
 mut('C08-emit-on-empty', 'C08', Q, "func emit[A any](ch chan<- A, queue *queue[A]) chan<- A {\n\tif queue.head == nil {\n\t\treturn nil\n\t}\n\treturn ch", "func emit[A any](ch chan<- A, queue *queue[A]) chan<- A {\n\treturn ch", 'zero values invented on an empty queue')
-mut('C08-no-flush-on-cancel', 'C08', U, "\t\t\t\tif open {\n\t\t\t\t\tclose(in)\n\t\t\t\t}\n\t\t\t\tflush()\n\t\t\t\treturn", "\t\t\t\tif open {\n\t\t\t\t\tclose(in)\n\t\t\t\t}\n\t\t\t\treturn")
+mut('C08-no-flush-on-cancel', 'C08', U, "\t\t\t\t\tfor x := range in {\n\t\t\t\t\t\tenq(&x, mq)\n\t\t\t\t\t}\n\t\t\t\t}\n\t\t\t\tflush()\n\t\t\t\treturn", "\t\t\t\t\tfor x := range in {\n\t\t\t\t\t\tenq(&x, mq)\n\t\t\t\t\t}\n\t\t\t\t}\n\t\t\t\treturn")
+mut('C08-no-drain-after-close', 'C08', U, "\t\t\t\t\tclose(in)\n\t\t\t\t\tfor x := range in {\n\t\t\t\t\t\tenq(&x, mq)\n\t\t\t\t\t}\n", "\t\t\t\t\tclose(in)\n", 'the residue repaired by fix D4b')
 mut('C08-no-flush-on-close', 'C08', U, "\t\t\t\t\t// closed by the sender: deliver the backlog, then end the stream\n\t\t\t\t\tflush()\n\t\t\t\t\treturn", "\t\t\t\t\treturn")
 mut('C08-deq-tail', 'C08', Q, "\tif val == queue.tail {\n\t\tqueue.tail = nil\n\t}\n", "", 'tail keeps pointing at a recycled node')
 
